@@ -3,20 +3,25 @@ C05 — handshake completes under any fragmentation and hands back trailing byte
 `hmac` and the two random fills are arbitrary.  `processBytes_eq_procSpec` (Lemmas/HsSpec) shows the
 five-stage loop of `process_bytes` equals a straight-line closed form for EVERY state and input.
 
-STATUS: proved here — `C05_party`: for either role and either start mode, against ANY peer stream
-`3 :: p1 ++ p2 ++ tail` (digest-bearing or original/digest-less: `genP2` covers both, C11) under EVERY
-partition into `process_bytes` calls: no error, the party emits exactly its version byte, its packet 1
-and its answer (3073 bytes), completes, and hands back exactly `tail`; completion is never reported
-before the peer's 3073rd byte (`C05_no_early_completion_any_partition`); the version-byte check; a
-completed handshake refuses further input.  The two parties' streams do not depend on each other's
-fragmentation (packet 1 depends on nothing received, the answer only on the peer's packet 1), so the
-two-party statement reduces to `C05_party` for each side plus the scheduling fact that every byte is
-eventually delivered; that last step (`C05_pair` of DESIGN.md §5: schedules as objects) is NOT a
-theorem — it is covered by the `hs` family: hs.xfer schedules interpreted by model and real code, and
-the !hs.pair oracle on two real handshakes (and an original-handshake peer) under many fragmentations.
+STATUS: proved.
+* one party (`C05_party`, `C05_party_started`): for either role and either start mode, against ANY peer
+  stream `3 :: p1 ++ p2 ++ tail` (digest-bearing or original/digest-less: `genP2` covers both, C11) under
+  EVERY partition into `process_bytes` calls: no error, exactly the version byte, packet 1 and the answer
+  (3073 bytes) are emitted, the party completes and hands back exactly `tail`; no partition completes
+  before the 3073rd byte; version-byte check; a completed handshake refuses input.
+* two parties (`C05_pair_no_error`, `C05_pair_complete`; Lemmas/HsPair.lean): by the partition theorem what
+  a party has emitted and handed back is a function of the bytes it has received so far (`emit`,
+  `trailing`).  `Reach` generates every configuration two fresh parties can get into — a side is called
+  with any number (possibly zero) of the bytes in flight towards it, in any order and interleaving; an
+  application sends bytes after its side completed.  Every reachable configuration is error-free for
+  every way the received bytes were cut into calls; every quiescent one (nothing in flight, both sides
+  called) is a completed handshake: each side emitted exactly `3 :: P1 ++ answer(peer's P1)`, 3073 bytes,
+  and handed back exactly the peer's application bytes.  (Nothing in flight is always reachable: bytes in
+  flight can always be delivered.)  `hmac` and the fills are parameters.
 -/
 import Rml.Lemmas.HsSpec
 import Rml.Lemmas.HsPart
+import Rml.Lemmas.HsPair
 import Rml.Props.C11
 namespace Rml.C05
 open Rml Rml.Hs
@@ -149,5 +154,34 @@ theorem C05_no_early_completion_any_partition (hmac : Hmac) (s s' : State) (c1 :
     cases res with
     | inProgress r => rw [hp] at h; simp at h
     | completed r rem => exact C05_no_early_completion hmac s s1 _ r rem hb hs hp
+
+/-- **C05, two parties, any schedule: nobody errs.**  In every configuration two fresh parties can reach
+    (`HsPair.Reach`: any order and sizes of deliveries, any interleaving of the two directions, first calls
+    with or without data, application bytes after completion), side A — however the bytes it has received
+    were cut into calls — has not erred, has emitted exactly `emit`, and has handed back exactly `trailing`.
+    (Side B: the statement is symmetric under swapping the roles of the two parties in `Reach`.) -/
+theorem C05_pair_no_error (hmac : Hmac) (a b : State) (actA actB : Bool) (recvA recvB appA appB : Bytes)
+    (ha : a.stage = .needToSend ∧ a.buf = []) (hb : b.stage = .needToSend ∧ b.buf = [])
+    (hr : HsPair.Reach hmac a b actA actB recvA recvB appA appB)
+    (c1 : Bytes) (r1 : List Bytes) (hcalls : (c1 :: r1).flatten = recvA) :
+    match feedCalls hmac a (c1 :: r1) with
+    | .ok (_, out, tr) => out = HsPair.emit hmac a recvA ∧ tr = HsPair.trailing recvA
+    | .error _ => False :=
+  HsPair.no_error hmac a b actA actB recvA recvB appA appB ha hb (HsPair.reach_consistent hr) c1 r1 hcalls
+
+/-- **C05, two parties: every schedule that delivers everything completes both sides.**  A reachable
+    configuration with nothing in flight in which both sides have been called: each side emitted exactly
+    its version byte 3, its packet 1 and its answer to the peer's packet 1 (3073 bytes), and handed back
+    exactly the bytes the peer's application sent after its handshake — unmodified, in order, once. -/
+theorem C05_pair_complete (hmac : Hmac) (hlen : ∀ i k, (hmac i k).length = 32) (a b : State)
+    (recvA recvB appA appB : Bytes)
+    (hfa : a.fill1.length = 1524 ∧ a.fill2.length = 1536) (hfb : b.fill1.length = 1524 ∧ b.fill2.length = 1536)
+    (_hr : HsPair.Reach hmac a b true true recvA recvB appA appB)
+    (hA : recvA = HsPair.wireOf hmac true b recvB appB) (hB : recvB = HsPair.wireOf hmac true a recvA appA) :
+    HsPair.emit hmac a recvA = 3 :: (genP1 hmac a.role a.fill1).1 ++ genP2 hmac a.role (genP1 hmac b.role b.fill1).1 a.fill2 ∧
+    HsPair.emit hmac b recvB = 3 :: (genP1 hmac b.role b.fill1).1 ++ genP2 hmac b.role (genP1 hmac a.role a.fill1).1 b.fill2 ∧
+    (HsPair.emit hmac a recvA).length = 3073 ∧ (HsPair.emit hmac b recvB).length = 3073 ∧
+    HsPair.trailing recvA = some appB ∧ HsPair.trailing recvB = some appA :=
+  HsPair.quiescent_complete hmac hlen a b recvA recvB appA appB hfa hfb hA hB
 
 end Rml.C05
